@@ -136,6 +136,45 @@ impl<'ast> Visit<'ast> for LoopFinder {
                 ));
             }
         }
+        // D43: for PAT in (LO..HI).rev() { ... }
+        if let (syn::Pat::Ident(_), syn::Expr::MethodCall(rv)) = (&*e.pat, &*e.expr) {
+            if rv.method == "rev" && rv.args.is_empty() && e.label.is_none() {
+                if let syn::Expr::Paren(pr) = &*rv.receiver {
+                    if let syn::Expr::Range(rg) = &*pr.expr {
+                        if let (Some(lo), Some(hi), syn::RangeLimits::HalfOpen(_)) = (&rg.start, &rg.end, &rg.limits) {
+                            let mut cf = OwnContinueFinder::default();
+                            cf.visit_block(&e.body);
+                            if !cf.found {
+                                let p0 = e.pat.span().byte_range();
+                                let l = lo.span().byte_range();
+                                let h = hi.span().byte_range();
+                                let for_kw = e.for_token.span().byte_range();
+                                self.vd.push(format!(
+                                    "{{\"rule\":\"D43\",\"call\":[{},{}],\"pat\":[{},{}],\"lo\":[{},{}],\"hi\":[{},{}]}}",
+                                    for_kw.start, b.start + 1, p0.start, p0.end, l.start, l.end, h.start, h.end
+                                ));
+                            }
+                        }
+                    }
+                }
+            }
+        }
+        // D41: for PAT in &EXPR { ... }   (PAT an identifier bound to a reference to each item of an indexable sequence)
+        if let (syn::Pat::Ident(_), syn::Expr::Reference(rf)) = (&*e.pat, &*e.expr) {
+            if rf.mutability.is_none() && e.label.is_none() {
+                let mut cf = OwnContinueFinder::default();
+                cf.visit_block(&e.body);
+                if !cf.found {
+                    let p0 = e.pat.span().byte_range();
+                    let ex = rf.expr.span().byte_range();
+                    let for_kw = e.for_token.span().byte_range();
+                    self.vd.push(format!(
+                        "{{\"rule\":\"D41\",\"call\":[{},{}],\"pat\":[{},{}],\"expr\":[{},{}]}}",
+                        for_kw.start, b.start + 1, p0.start, p0.end, ex.start, ex.end
+                    ));
+                }
+            }
+        }
         // D19: for (I, P) in X.iter().enumerate().take(A).skip(B) { ... }
         if let (syn::Pat::Tuple(pt), syn::Expr::MethodCall(sk)) = (&*e.pat, &*e.expr) {
             if sk.method == "skip" && sk.args.len() == 1 && pt.elems.len() == 2 {
